@@ -29,7 +29,7 @@ fn res_digest(r: anyhow::Result<Envelope>) -> Value {
 }
 
 /// Execute an observation op; returns the raw answer.
-pub fn run_obs(op: &str, step: &Value, regs: &Regs, ctx: &mut Ctx, var: u64) -> Result<Option<Value>, String> {
+pub fn run_obs(op: &str, step: &Value, regs: &Regs, ctx: &mut Ctx, keys: &crate::project::Keys, var: u64) -> Result<Option<Value>, String> {
     let a = |i: usize| &step[i + 2];
     Ok(Some(match op {
         "obs_structure" => {
@@ -186,6 +186,103 @@ pub fn run_obs(op: &str, step: &Value, regs: &Regs, ctx: &mut Ctx, var: u64) -> 
                 },
                 _ => return Err(format!("extract type {}", ty)),
             }
+        }
+
+        "obs_verify" => {
+            use bc_components::Verifier;
+            let e = reg(regs, a(0))?;
+            let mut held = vec![];
+            for k in a(1).as_array().ok_or("keys")? {
+                held.push(keys.signer(k.as_str().unwrap_or("")));
+            }
+            let pubs: Vec<&dyn Verifier> = held.iter().map(|h| &h.public as &dyn Verifier).collect();
+            let th = a(2).as_u64().unwrap_or(0) as usize;
+            let rb = |r: anyhow::Result<bool>| match r {
+                Ok(b) => json!(["ok", b]),
+                Err(er) => json!(["err", err_kind(&er)]),
+            };
+            let each: Vec<Value> = pubs.iter().map(|p| {
+                let a1 = e.has_signature_from(*p);
+                let a2 = e.verify_signature_from(*p);
+                // the verify_ form must agree with the has_ form
+                match (&a1, &a2) {
+                    (Ok(true), Err(_)) | (Ok(false), Ok(_)) => json!(["err", "has_signature_from and verify_signature_from disagree"]),
+                    _ => rb(a1),
+                }
+            }).collect();
+            let threshold = if th == 0 {
+                if var % 2 == 0 { rb(e.has_signatures_from(&pubs)) } else { rb(e.has_signatures_from_threshold(&pubs, None)) }
+            } else if var % 2 == 0 {
+                rb(e.has_signatures_from_threshold(&pubs, Some(th)))
+            } else {
+                rb(e.verify_signatures_from_threshold(&pubs, Some(th)).map(|_| true).or_else(|er| {
+                    if er.downcast_ref::<bc_envelope::EnvelopeError>().map(|x| matches!(x, bc_envelope::EnvelopeError::UnverifiedSignature)).unwrap_or(false) { Ok(false) } else { Err(er) }
+                }))
+            };
+            let metadata = match e.verify_signature_from_returning_metadata(pubs[0]) {
+                Ok(m) => json!(["ok", dhex(&m)]),
+                Err(er) => json!(["err", err_kind(&er)]),
+            };
+            json!({"each": each, "threshold": threshold, "metadata": metadata, "verify": res_digest(e.verify(pubs[0]))})
+        }
+        "obs_confirm" => {
+            let root = reg(regs, a(0))?;
+            let proof = reg(regs, a(1))?;
+            let mut set = std::collections::HashSet::new();
+            for d in a(2).as_array().ok_or("targets")? {
+                set.insert(Digest::from_data(ctx.digest(d).map_err(|e| e.0)?));
+            }
+            // the verifier holds only the root digest
+            let verifier = if var % 2 == 0 { root.elide() } else { root.clone() };
+            let acc = if set.len() == 1 && var % 4 < 2 {
+                verifier.confirm_contains_target(set.iter().next().unwrap(), proof)
+            } else {
+                verifier.confirm_contains_set(&set, proof)
+            };
+            json!({"accept": acc})
+        }
+        "obs_types" => {
+            let e = reg(regs, a(0))?;
+            let t = match simple(a(1), ctx) { Ok(s) => Envelope::new(s), Err(x) => return Err(x) };
+            let mut tys: Vec<String> = e.types().iter().map(dhex).collect();
+            tys.sort();
+            let has = if let Some(kv) = t.as_known_value() {
+                let h = e.has_type(kv);
+                if h != e.check_type(kv).is_ok() {
+                    return Err("has_type and check_type disagree".into());
+                }
+                h
+            } else {
+                let h = e.has_type_envelope(t.clone());
+                if h != e.check_type_envelope(t.clone()).is_ok() {
+                    return Err("has_type_envelope and check_type_envelope disagree".into());
+                }
+                h
+            };
+            json!({"types": ["set", tys], "has": has, "get": res_digest(e.get_type())})
+        }
+        "obs_attachments" => {
+            let e = reg(regs, a(0))?;
+            let v = a(1).as_str().filter(|x| *x != "~none~");
+            let c = a(2).as_str().filter(|x| *x != "~none~");
+            let list = if v.is_none() && c.is_none() && var % 2 == 0 { e.attachments() } else { e.attachments_with_vendor_and_conforms_to(v, c) };
+            let mut parts: Vec<Value> = vec![];
+            let list_json = match &list {
+                Ok(xs) => {
+                    let mut d: Vec<String> = xs.iter().map(dhex).collect();
+                    d.sort();
+                    for x in xs {
+                        let payload = x.attachment_payload().map(|p| dhex(&p)).unwrap_or_else(|e| format!("err:{}", e));
+                        let vendor = x.attachment_vendor().unwrap_or_else(|e| format!("err:{}", e));
+                        let conf = match x.attachment_conforms_to() { Ok(Some(s)) => s, Ok(None) => "~none~".to_string(), Err(e) => format!("err:{}", e) };
+                        parts.push(json!([dhex(x), payload, vendor, conf]));
+                    }
+                    json!(["ok", ["set", d]])
+                }
+                Err(er) => json!(["err", err_kind(er)]),
+            };
+            let single = res_digest(e.attachment_with_vendor_and_conforms_to(v, c));
+            json!({"list": list_json, "single": single, "parts": ["set", parts]})
         }
         "obs_compare" => {
             let x = reg(regs, a(0))?;
@@ -383,6 +480,68 @@ pub fn compare_obs(op: &str, want: &Value, got: &Value, ctx: &mut Ctx, natural_o
                 _ => Err(format!("bad expected answer {}", want)),
             }
         }
+        "obs_confirm" => {
+            if got["accept"] != want["accept"] {
+                let tag = if want["produced"] == json!(true) {
+                    if want["nested"] == json!(true) { "#own-proof-rejected:nested-targets# " } else { "#own-proof-rejected# " }
+                } else if want["accept"] == json!(false) {
+                    "#accepted-unsound# "
+                } else {
+                    "#rejected-valid# "
+                };
+                return Err(format!("{}verifier answered {} but the specification requires {}", tag, got["accept"], want["accept"]));
+            }
+            Ok(())
+        }
+        "obs_verify" => {
+            let w = canon(&resolve(want, ctx)?);
+            let mut errs: Vec<String> = vec![];
+            let each_w = w["each"].as_array().cloned().unwrap_or_default();
+            let each_g = got["each"].as_array().cloned().unwrap_or_default();
+            let mut tag = String::new();
+            for (i, (ew, eg)) in each_w.iter().zip(each_g.iter()).enumerate() {
+                // no valid signature + a malformed 'signed' object: the property does not choose
+                // between "false" and an error
+                let ok = *eg == json!(["ok", ew]) || (*ew == json!(false) && tag_of(eg) == "err");
+                if !ok {
+                    if tag_of(eg) == "err" && tag.is_empty() {
+                        tag = if *ew == json!(true) { "#err-despite-valid-signature# ".into() } else { "#err-instead-of-false# ".into() };
+                    } else if tag.is_empty() {
+                        tag = if *ew == json!(true) { "#valid-signature-not-recognised# ".into() } else { "#accepted-invalid-signature# ".into() };
+                    }
+                    errs.push(format!("key #{}: library {} specification {}", i + 1, eg, ew));
+                }
+            }
+            let th_ok = got["threshold"] == json!(["ok", w["threshold"]]) || (w["threshold"] == json!(false) && tag_of(&got["threshold"]) == "err");
+            if !th_ok {
+                if tag.is_empty() { tag = "#threshold# ".into(); }
+                errs.push(format!("threshold: library {} specification {}", got["threshold"], w["threshold"]));
+            }
+            // metadata handed out must be covered
+            let allowed = w["metadata"][1].as_array().cloned().unwrap_or_default();
+            match tag_of(&got["metadata"]) {
+                "ok" => {
+                    if !allowed.contains(&got["metadata"][1]) {
+                        if tag.is_empty() { tag = "#uncovered-metadata# ".into(); }
+                        errs.push(format!("metadata {} returned as verified but not covered by a signature of that key", got["metadata"][1]));
+                    }
+                }
+                _ => {
+                    if !allowed.is_empty() {
+                        if tag.is_empty() { tag = "#metadata-missing# ".into(); }
+                        errs.push(format!("no metadata returned ({}) although a valid signature exists", got["metadata"]));
+                    }
+                }
+            }
+            let vw = &w["verify"];
+            let vg = &got["verify"];
+            let same = if tag_of(vw) == "err" { tag_of(vg) == "err" } else { vw == vg };
+            if !same {
+                if tag.is_empty() { tag = "#verify# ".into(); }
+                errs.push(format!("verify(): library {} specification {}", vg, vw));
+            }
+            if errs.is_empty() { Ok(()) } else { Err(format!("{}{}", tag, errs.join("; "))) }
+        }
         "obs_lookup" => {
             let w = canon(&resolve(want, ctx)?);
             let g = canon(got);
@@ -399,8 +558,17 @@ pub fn compare_obs(op: &str, want: &Value, got: &Value, ctx: &mut Ctx, natural_o
             Ok(())
         }
         _ => {
-            let w = canon(&resolve(want, ctx)?);
-            let g = canon(got);
+            // error kinds are not part of the properties: compare the class only
+            fn strip(v: &Value) -> Value {
+                match v {
+                    Value::Array(a) if a.len() == 2 && a[0].as_str() == Some("err") => json!(["err"]),
+                    Value::Array(a) => Value::Array(a.iter().map(strip).collect()),
+                    Value::Object(m) => Value::Object(m.iter().map(|(k, x)| (k.clone(), strip(x))).collect()),
+                    _ => v.clone(),
+                }
+            }
+            let w = strip(&canon(&resolve(want, ctx)?));
+            let g = strip(&canon(got));
             if w != g {
                 return Err(format!("specification {} library {}", w, g));
             }
